@@ -189,6 +189,47 @@ def norm(x, depth=0):
     return ("gen", o, tuple(norm(e, depth + 1) for e in a))
 
 
+_LEAF_NORMAL = {"typing.Dict": "dict", "typing.List": "list", "typing.Set": "set", "typing.Tuple": "tuple", "typing.Pattern": "Pattern"}
+
+
+def leaf_tokens(tree):
+    """The names, dotted names and constants of an expression in SOURCE ORDER, with the documented renamings undone and the inserted
+    `typing.Union` heads dropped. Rewriting `a | b` into `typing.Union[a, b]` and renaming builtin generics keeps this sequence: the
+    arguments of every origin stay in the order they were written (evaluated unions cannot show that - typing's equality and its
+    caches ignore member order)."""
+    out = []
+
+    def dotted(n):
+        parts = []
+        while isinstance(n, ast.Attribute):
+            parts.append(n.attr)
+            n = n.value
+        if isinstance(n, ast.Name):
+            parts.append(n.id)
+            return ".".join(reversed(parts))
+        return None
+
+    def walk(n):
+        if isinstance(n, ast.Name):
+            out.append(n.id)
+        elif isinstance(n, ast.Attribute):
+            d = dotted(n)
+            if d is None:
+                walk(n.value)
+                out.append("." + n.attr)
+            else:
+                out.append(d)
+        elif isinstance(n, ast.Constant):
+            out.append(("const", type(n.value).__name__, repr(n.value)))
+        else:
+            for c in ast.iter_child_nodes(n):
+                if not isinstance(c, (ast.operator, ast.expr_context, ast.unaryop, ast.cmpop, ast.boolop)):
+                    walk(c)
+
+    walk(tree)
+    return [_LEAF_NORMAL.get(t, t) if isinstance(t, str) else t for t in out if t != "typing.Union"]
+
+
 def has_bitor(tree):
     return any(isinstance(n, ast.BinOp) and isinstance(n.op, ast.BitOr) for n in ast.walk(tree))
 
@@ -238,6 +279,11 @@ def check(sh, s, semantic=True):
             sh.violation("ast-changed", input=s, output=out)
     if not semantic:
         return
+    # argument order: the leaves of the expression keep their source order
+    sh.count("leaf_order_checked")
+    la, lb = leaf_tokens(tree), leaf_tokens(out_tree)
+    if la != lb:
+        sh.violation("argument-order-changed", input=s, output=out, expected=str(la)[:300], got=str(lb)[:300])
     try:
         a = eval(s, dict(NS))  # noqa: S307
     except Exception:  # noqa: BLE001
@@ -278,6 +324,9 @@ def canaries(sh):
     sh.canary("pipe-eq-union", norm(int | str) == norm(typing.Union[str, int]))
     sh.canary("builtin-eq-typing", norm(list[int]) == norm(typing.List[int]) and norm(tuple) == norm(typing.Tuple))
     sh.canary("bitor-detected", has_bitor(ast.parse("typing.List[int | str]", mode="eval")))
+    lt = lambda x: leaf_tokens(ast.parse(x, mode="eval"))  # noqa: E731
+    sh.canary("leaf-order-sees-reversal", lt("int | (str | None)") != lt("typing.Union[int, None, str]") and lt("int | (str | None)") == lt("typing.Union[int, str, None]"))
+    sh.canary("leaf-order-undoes-renaming", lt("dict[str, list[int] | None]") == lt("typing.Dict[str, typing.Union[typing.List[int], None]]"))
     sh.canary("bitor-in-constant-ignored", not has_bitor(ast.parse("Literal['a|b']", mode="eval")))
 
 
